@@ -24,7 +24,7 @@ theorem below_iff (s : St) :
 
 theorem cval_cons_self (s : St) (j v' : Nat) (hs' : List Nat) :
     cval (stCached s j v' hs') j = some v' := by
-  simp [cval, stCached, lookup_cons_self]
+  simp [cval, stCached]
 
 theorem cval_cons_subst_ne (s : St) (j v' : Nat) (hs' : List Nat) {c : Nat} (h : c ≠ j) :
     cval (stCached s j v' hs') c = cval s c := by
@@ -200,7 +200,7 @@ def cv1 (s1 : St) (j new : Nat) (c : Nat) : Option Nat :=
   ((cache1Of s1 j new).lookup c).map (·.val)
 
 theorem cv1_self (s1 : St) (j new : Nat) : cv1 s1 j new j = some new := by
-  simp [cv1, cache1Of, lookup_cons_self]
+  simp [cv1, cache1Of]
 
 theorem cv1_ne (s1 : St) (j new : Nat) {c : Nat} (h : c ≠ j) : cv1 s1 j new c = cval s1 c := by
   unfold cv1 cache1Of cval
@@ -427,7 +427,7 @@ theorem iterate_inv (hself : (s1.prov.lookup j).isSome = true) :
         unfold updateProv
         rw [List.mem_filterMap]
         refine ⟨(j, last), lookup_mem hl, ?_⟩
-        simp [cache1Of, lookup_cons_self]
+        simp [cache1Of]
       exact lookup_isSome_of_mem this
   · intro c w hw
     have hw' : (updateProv (cache1Of s1 j new) s1.prov).lookup c = some w := hw
@@ -446,7 +446,7 @@ theorem isHead_stIter (s1 : St) (j new : Nat) (hself : (s1.prov.lookup j).isSome
       unfold updateProv
       rw [List.mem_filterMap]
       refine ⟨(j, last), lookup_mem hl, ?_⟩
-      simp [cache1Of, lookup_cons_self]
+      simp [cache1Of]
     exact lookup_isSome_of_mem this
 
 theorem not_headOn_of_not_below {s0 s1 : St} {j : Nat} (hE : Ext s0 s1)
@@ -636,6 +636,30 @@ theorem eval_sound (hNF : NoFallback P) {final : List (Nat × Nat)} (hdb : DbOk 
     exact ⟨hI.finalOk j v1 hfin, hfin, ⟨hI.finalOk, hI.finalClosed⟩, hst', hp0, hc0,
       hE.poisoned, hE.final⟩
 
+theorem dbOk_nil : DbOk P env [] :=
+  ⟨fun _ _ h => (nomatch h), fun _ _ h => (nomatch h)⟩
+
+
 end
+
+/-- the database after any history of requests in one revision. -/
+def gets (P : Prog) (env : Nat → Nat) : Db → List Nat → Db
+  | db, [] => db
+  | db, j :: js => gets P env (db.get P env j).2 js
+
+theorem dbOk_get (P : Prog) (env : Nat → Nat) (hNF : NoFallback P) (db : Db)
+    (hdb : DbOk P env db.final) (j : Nat) : DbOk P env (db.get P env j).2.final := by
+  unfold Db.get
+  cases he : eval P env db.final db.poisoned j with
+  | error e => exact hdb
+  | ok r =>
+    obtain ⟨v, s⟩ := r
+    exact (eval_sound P env hNF hdb db.poisoned j v s he).2.2.1
+
+theorem dbOk_gets (P : Prog) (env : Nat → Nat) (hNF : NoFallback P) (js : List Nat) :
+    ∀ db : Db, DbOk P env db.final → DbOk P env (gets P env db js).final := by
+  induction js with
+  | nil => intro db h; exact h
+  | cons j js ih => intro db h; exact ih _ (dbOk_get P env hNF db h j)
 
 end SalsaVerif.Proofs.Cycle
